@@ -332,6 +332,14 @@ func (p SimpleCommonMessageSignatureProof) MergeSparse(s SparseSignatureProof) S
 	bsBefore := p.bitset.Clone()
 
 	for _, sparseSig := range s.Signatures {
+		if len(sparseSig.KeyID) != 2 {
+			// Key IDs for this proof type are always a big-endian uint16.
+			// Sparse signatures arrive from the network,
+			// so they cannot be assumed to be well formed.
+			res.AllValidSignatures = false
+			continue
+		}
+
 		// Assuming the index can be represented in a 16 bit integer.
 		// This type is certainly not intended to support 32k public keys.
 		n := int(binary.BigEndian.Uint16(sparseSig.KeyID))
